@@ -7,6 +7,7 @@
 #![allow(dead_code)]
 
 use crate::universe::Tx;
+#[cfg(feature = "full")]
 use bitvec::{
     order::{Lsb0, Msb0},
     vec::BitVec,
@@ -129,6 +130,7 @@ pub struct ConstGen<const N: usize> {
     pub a: [u8; N],
 }
 
+#[cfg(feature = "full")]
 #[derive(TypeInfo)]
 pub struct Bits {
     pub a: BitVec<u8, Lsb0>,
@@ -272,12 +274,19 @@ pub static CORPUS: &[CorpusEntry] = &[
     entry!("Duration", Duration, named("Duration")),
     entry!("Compact<u32>", scale::Compact<u32>, app("Compact", vec![named("u32")])),
     entry!("Compact<u128>", scale::Compact<u128>, app("Compact", vec![named("u128")])),
+    #[cfg(feature = "full")]
     entry!("BitVec<u8,Lsb0>", BitVec<u8, Lsb0>, app("BitVec", vec![named("u8"), named("Lsb0")])),
+    #[cfg(feature = "full")]
     entry!("BitVec<u8,Msb0>", BitVec<u8, Msb0>, app("BitVec", vec![named("u8"), named("Msb0")])),
+    #[cfg(feature = "full")]
     entry!("BitVec<u16,Lsb0>", BitVec<u16, Lsb0>, app("BitVec", vec![named("u16"), named("Lsb0")])),
+    #[cfg(feature = "full")]
     entry!("BitVec<u32,Msb0>", BitVec<u32, Msb0>, app("BitVec", vec![named("u32"), named("Msb0")])),
+    #[cfg(feature = "full")]
     entry!("BitVec<u64,Lsb0>", BitVec<u64, Lsb0>, app("BitVec", vec![named("u64"), named("Lsb0")])),
+    #[cfg(feature = "full")]
     entry!("Lsb0", Lsb0, named("Lsb0")),
+    #[cfg(feature = "full")]
     entry!("Msb0", Msb0, named("Msb0")),
     // derived
     entry!("Unit", Unit, named("Unit")),
@@ -301,6 +310,7 @@ pub static CORPUS: &[CorpusEntry] = &[
     entry!("Lifetimes", Lifetimes<'static>, named("Lifetimes")),
     entry!("ConstGen<4>", ConstGen<4>, named("ConstGen<4>")),
     entry!("ConstGen<5>", ConstGen<5>, named("ConstGen<5>")),
+    #[cfg(feature = "full")]
     entry!("Bits", Bits, named("Bits")),
     entry!("Replaced", Replaced, named("Replaced")),
     entry!("Documented", Documented, named("Documented")),
